@@ -8,9 +8,11 @@ import (
 	"encoding/json"
 	"fmt"
 	"os"
+	"os/exec"
 	"path/filepath"
 	"runtime"
 	"strconv"
+	"strings"
 	"sync"
 	"sync/atomic"
 	"time"
@@ -42,6 +44,9 @@ type History struct {
 	Init     []Init          `json:"init"`
 	Ops      []Op            `json:"ops"`
 	Expect   *Expect         `json:"expect,omitempty"`
+	// Isolated: the finding replays only when the history runs alone in a fresh single-threaded process without
+	// garbage collection (library state kept between calls, e.g. a sync.Pool)
+	Isolated bool `json:"isolated,omitempty"`
 
 	nontrivial bool
 	trace      string
@@ -145,8 +150,51 @@ func saveHistory(path string, h *History) {
 	}
 }
 
+// isolatedReproduces runs this binary again on the history alone: GOMAXPROCS=1, GOGC=off.
+func isolatedReproduces(h *History, sig string) bool {
+	if os.Getenv("LIBENG_ISOLATED") != "" {
+		return false
+	}
+	dir, err := os.MkdirTemp("", "libeng-iso-")
+	if err != nil {
+		return false
+	}
+	defer os.RemoveAll(dir)
+	path := filepath.Join(dir, "h.json")
+	c := *h
+	c.Expect = &Expect{Signature: sig}
+	saveHistory(path, &c)
+	exe, err := os.Executable()
+	if err != nil {
+		return false
+	}
+	for i := 0; i < 2; i++ {
+		cmd := exec.Command(exe, h.Property, "replay", fmt.Sprint(h.Seed), verifDir, path)
+		cmd.Env = append(os.Environ(), "GOMAXPROCS=1", "GOGC=off", "LIBENG_ISOLATED=1")
+		out, _ := cmd.CombinedOutput()
+		if !strings.Contains(string(out), "REPRODUCED") || strings.Contains(string(out), "NOT REPRODUCED") {
+			return false
+		}
+	}
+	return true
+}
+
 func replay(prop, path string) {
 	h := loadHistory(path)
+	if h.Isolated && os.Getenv("LIBENG_ISOLATED") == "" {
+		// this finding needs the history to run alone, single-threaded, without garbage collection
+		exe, _ := os.Executable()
+		cmd := exec.Command(exe, os.Args[1:]...)
+		cmd.Env = append(os.Environ(), "GOMAXPROCS=1", "GOGC=off", "LIBENG_ISOLATED=1")
+		cmd.Stdout, cmd.Stderr = os.Stdout, os.Stderr
+		if err := cmd.Run(); err != nil {
+			if ee, ok := err.(*exec.ExitError); ok {
+				os.Exit(ee.ExitCode())
+			}
+			fail2("isolated replay: %v", err)
+		}
+		os.Exit(0)
+	}
 	var v *Violation
 	switch h.Property {
 	case "C12":
@@ -227,6 +275,13 @@ func (r *reporter) report(h *History, v *Violation, rerun func(*History) *Violat
 	for i := 0; i < 2; i++ {
 		v2 := rerun(h)
 		if v2 == nil || v2.Signature != v.Signature {
+			// State the library keeps between calls (a pool, a package variable) is shared by the histories that run
+			// side by side in this process. Try the history alone: a fresh process, one thread, no garbage collection -
+			// there such state is a function of the history only.
+			if isolatedReproduces(h, v.Signature) {
+				h.Isolated = true
+				break
+			}
 			// never reported as a violation; makes the run inconclusive unless a confirmed violation exists too
 			fmt.Fprintf(os.Stderr, "HARNESS-WARNING: replay of %s did not reproduce (%s)\n", r.prop, v.Signature)
 			r.unreproduced++
